@@ -222,6 +222,7 @@ func run(r *core.Run) int {
 		go func() { defer live.Done(); liveExpiry(r, e) }()
 	}
 	r.Set("alphabet", alpha)
+	r.Assume("live next-update observations: the wall clock does not step backwards during the three seconds they take")
 	r.Set("singles_and_pairs_exhaustive", pairsEnd)
 	r.Parallel(len(jobs), func(i int) {
 		j := jobs[i]
